@@ -42,7 +42,7 @@ PROPS = {
         design='DESIGN.md §5 C03'),
     'C04': dict(
         title='faithful map', level='proof', templates=['l2'],
-        k_quick=['q_sub_get_from_table', 'q_sub_remove_entry', 'q_sub_realloc_grow', 'q_sub_realloc_shrink', 'q_sub_collide', 'q_sub_insert_set_head', 'q_sub_split_hasher'],
+        k_quick=['q_sub_get_from_table', 'q_sub_remove_entry', 'q_sub_realloc_grow', 'q_sub_realloc_shrink', 'q_sub_collide', 'q_op_clone_collide', 'q_sub_insert_set_head', 'q_sub_split_hasher'],
         k_thorough=SUB_T + ['q_sub_collide'],
         assumptions=[A_SUB, A_HB, A_DOUBLE, A_EQ, A_MODEL, A_KBOUND,
                      'hashbrown probing under collisions is not decided (A-HB is a dependency contract)'],
@@ -112,7 +112,7 @@ PROPS = {
     'C14': dict(
         title='clone', level='proof', templates=['l2', 'l1'],
         level_extra='Scope of the proof for C14: the copy itself (length, order, recorded sizes, current_size, max_size, capacity, every key/value a clone of its counterpart).  Independence of source and clone under later operations, Entry::clone, and the Eq-equality of cloned keys are decided only boundedly (Kani).',
-        k_quick=['q_op_clone', 'q_op_clone_small', 'q_op_clone_diverge_remove', 'q_op_clone_diverge_realloc', 'q_ledger_clone'],
+        k_quick=['q_op_clone', 'q_op_clone_small', 'q_op_clone_collide', 'q_op_clone_diverge_remove', 'q_op_clone_diverge_realloc', 'q_ledger_clone'],
         k_thorough=['t_op_clone', 't_op_clone_diverge_touch', 't_op_clone_diverge_clear', 't_op_clone_diverge_retain'],
         assumptions=[A_HEAP, A_SUB, A_NODE, A_CLONE, A_DOUBLE, A_HB, A_UNSAFE, A_KBOUND,
                      'proved (Verus, unbounded, over A-SUB/A-NODE): same length, order, per-entry sizes, current_size, max_size, capacity >= source, every key/value a clone of the one at the same position, source untouched by type (&self); independence of later operations and Entry::clone itself: bounded Kani harnesses only'],
